@@ -451,9 +451,8 @@ func main() {
 			}
 			jobs = append(jobs, j)
 		}
-		for s := 1; s <= 3; s++ {
-			jobs = append(jobs, job{Seed: r.Seed, Shard: s, Tier: "thorough", Only: "recycle"})
-			jobs = append(jobs, job{Seed: r.Seed, Shard: s, Tier: "quick", Only: "bigsnap"})
+		for s := 1; s <= 2; s++ {
+			jobs = append(jobs, job{Seed: r.Seed, Shard: s, Tier: "thorough", Only: "recycle,bigsnap"})
 		}
 	} else {
 		jobs = []job{{Seed: r.Seed, Shard: 0, Tier: "quick", Only: "recycle"}, {Seed: r.Seed, Shard: 0, Tier: "quick", Only: "chain"},
